@@ -10,6 +10,7 @@ FIX_COMMITS = [
     "48c1eb33 tetra volume mid-points",
     "abb0b49f tools.moment on 2-D fields",
     "35edf887 van_der_waals non-isochoric I2",
+    "b25de9f1 axisymmetric integral form on None (zero) blocks of mixed-field hessians",
 ]
 CHECKS = {
     "C01": {
